@@ -261,6 +261,27 @@ def run(report, findings):
         if err and shown < 5:
             shown += 1
             report.violation(f"redundant parentheses change the model: {err}", {"spellings": sp, "error": err})
+    # blanks that separate tokens are not redundant: a sentence and the non-sentence (or other sentence) it becomes when such a blank is
+    # inserted or removed are told apart by model_description in whichever order they arrive
+    from formulae import model_description
+    GLUE = [("ab + c", "a b + c", None), ("y ~ x1 + z", "y ~ x 1 + z", None), ("(p + q + r) ** 2", "(p + q + r) * * 2", None),
+            ("h(d <= e)", "h(d < = e)", None), ("y ~ `u v` + w", "y ~ `uv` + w", "names"), ("g(k, 'm n')", "g(k, 'mn')", "names"),
+            ("y ~ `st`", "y ~ ` st`", "names"), ("f(x, 10)", "f(x, 1 0)", None), ("y ~ a:b", "y ~ a: :b", None)]
+    for first, second, kind in GLUE:
+        for one, two in ((first, second), (second, first)):
+            evals += 2
+            outs = []
+            for s_ in (one, two):
+                try:
+                    outs.append([t.name for t in model_description(s_).terms])
+                except Exception:          # noqa: BLE001
+                    outs.append(None)
+            if kind is None and outs[[one, two].index(second)] is not None:
+                report.violation(f"non-sentence {second!r} accepted (evaluated {'after' if two == second else 'before'} {first!r})",
+                                 {"formula": second, "after": first, "error": "must be rejected"})
+            elif kind == "names" and (outs[0] is None or outs[1] is None or outs[0] == outs[1]):
+                report.violation(f"{one!r} then {two!r}: different names inside quotes must give different terms, got {outs}",
+                                 {"formulas": [one, two], "error": str(outs)})
     report.coverage.update({
         "paren_groups": {"groups": n_groups, "judged": n_groups_judged,
                          "rule": "6 spellings of one chain (plain, fully parenthesised by own precedence climbing, atoms wrapped, doubly wrapped, "
